@@ -272,8 +272,12 @@ pub enum OutVG {
 pub fn outvg() -> BoxedStrategy<OutVG> {
     prop_oneof![
         30 => Just(OutVG::Zero),
-        40 => (1u32..=100_000).prop_map(OutVG::Pos),
-        30 => (1u32..=100_000).prop_map(OutVG::Neg),
+        36 => (1u32..=100_000).prop_map(OutVG::Pos),
+        26 => (1u32..=100_000).prop_map(OutVG::Neg),
+        // outputs of a few hundredths of a kWh (a system that barely runs at a step): where an absolute
+        // threshold on the delivered energy would bite
+        5 => (1u32..=4).prop_map(OutVG::Pos),
+        3 => (1u32..=4).prop_map(OutVG::Neg),
     ]
     .boxed()
 }
@@ -341,6 +345,30 @@ pub struct BuildingG {
     /// the whole set of systems is repeated `rep` times under other ids (id + 1000 j): buildings with hundreds of
     /// systems and lines (not combined with long series)
     pub rep: usize,
+    /// per-step orders of magnitude: every value of step t is multiplied by 10^e_t (the same factor for all lines,
+    /// so that the relations inside a step - production equal to the use, and so on - survive): 1 = the first
+    /// step is 10^5..10^7 times the others, 2 = the last one, 3 = exponents vary from step to step
+    pub mag: u8,
+}
+
+/// v x 10^e, exactly in decimal (the text of v with the decimal point moved), as the f32 the library will parse
+pub fn shift10(v: f32, e: u32) -> f32 {
+    if v == 0.0 || e == 0 {
+        return v;
+    }
+    let t = f32_text(v);
+    let (neg, t) = match t.strip_prefix('-') {
+        Some(r) => (true, r.to_string()),
+        None => (false, t),
+    };
+    let (ip, fp) = match t.split_once('.') {
+        Some((a, b)) => (a.to_string(), b.to_string()),
+        None => (t.clone(), String::new()),
+    };
+    let e = e as usize;
+    let (ip2, fp2) = if fp.len() <= e { (format!("{}{}{}", ip, fp, "0".repeat(e - fp.len())), String::new()) } else { (format!("{}{}", ip, &fp[..e]), fp[e..].to_string()) };
+    let txt = format!("{}{}{}{}", if neg { "-" } else { "" }, ip2, if fp2.is_empty() { "" } else { "." }, fp2);
+    txt.parse::<f32>().unwrap_or(v)
 }
 
 const ID_POOL: [i32; 10] = [0, 1, 2, 3, 7, -1, -2, 12, 5, 40];
@@ -645,8 +673,10 @@ pub fn building_g(p: &BParams) -> BoxedStrategy<BuildingG> {
                 if p.max_steps >= 12 { prop_oneof![500 - p.long_w => Just(0usize), p.long_w => prop_oneof![2 => Just(365usize), 2 => Just(1000usize), 5 => Just(4380usize), 6 => Just(8760usize)]].boxed() } else { Just(0usize).boxed() },
                 // many systems: about one building in 70
                 if p.max_steps >= 12 { prop_oneof![207 => Just(1usize), 1 => Just(20usize), 1 => Just(70usize), 1 => Just(300usize)].boxed() } else { Just(1usize).boxed() },
+                // steps of very different magnitude inside one building: about one building in 25
+                if p.max_steps >= 12 && p.huge_kwh > 0 { prop_oneof![96 => Just(0u8), 2 => Just(1u8), 1 => Just(2u8), 1 => Just(3u8)].boxed() } else { Just(0u8).boxed() },
             )
-                .prop_flat_map(move |(keep, regime, quiet_elec, id_off, needs, interleave, cogen_fuel, long, rep)| {
+                .prop_flat_map(move |(keep, regime, quiet_elec, id_off, needs, interleave, cogen_fuel, long, rep, mag)| {
                     let no_elec = regime.is_some() && quiet_elec;
                     let min_sys = if regime.is_some() { 0 } else { 1 };
                     (
@@ -659,9 +689,10 @@ pub fn building_g(p: &BParams) -> BoxedStrategy<BuildingG> {
                         Just(cogen_fuel),
                         Just(long),
                         Just(rep),
+                        Just(mag),
                     )
                 })
-                .prop_map(move |(keep, systems, regime, id_off, needs, interleave, cogen_fuel, long, rep)| BuildingG {
+                .prop_map(move |(keep, systems, regime, id_off, needs, interleave, cogen_fuel, long, rep, mag)| BuildingG {
                     n,
                     keep,
                     id_off,
@@ -672,6 +703,7 @@ pub fn building_g(p: &BParams) -> BoxedStrategy<BuildingG> {
                     cogen_fuel,
                     tile: (long / keep.max(1)).max(1),
                     rep: if long == 0 { rep } else { 1 },
+                    mag,
                 })
         })
         .boxed()
@@ -956,6 +988,28 @@ pub fn resolve(g: &BuildingG) -> Building {
         .iter()
         .map(|(sv, v)| Need { srv: *sv, vals: v.iter().take(n).map(|c| cents_f32(*c)).collect() })
         .collect();
+    if g.mag > 0 && n >= 2 {
+        let big = 5 + (g.id_off as u32 % 3);
+        for t in 0..n {
+            let want = match g.mag {
+                1 => if t == 0 { big } else { 0 },
+                2 => if t == n - 1 { big } else { 0 },
+                _ => (g.id_off as u32 + 3 * t as u32) % 8,
+            };
+            // keep every value of the step at or below 1e9 kWh
+            let mx = lines.iter().map(|l| l.vals[t].abs() as f64).fold(0.0f64, f64::max);
+            let mut e = want;
+            while e > 0 && mx * 10f64.powi(e as i32) > 1e9 {
+                e -= 1;
+            }
+            if e > 0 {
+                for l in lines.iter_mut() {
+                    l.vals[t] = shift10(l.vals[t], e);
+                }
+            }
+        }
+        tags.push("step_magnitudes".into());
+    }
     if g.rep > 1 {
         let base = lines.clone();
         for j in 1..g.rep {
